@@ -86,8 +86,8 @@ static inline BOOL std_reverse_iterator_QList_QSharedPointer_Handler_iterator_va
 { return a.l == b.l && 0 <= b.i && b.i <= a.i && a.i <= SIZE(a.l); }
 static inline BOOL QList_QSharedPointer_Handler_iterator_op_ne(IT a, IT b) { return a.i != b.i; }
 static inline BOOL std_reverse_iterator_QList_QSharedPointer_Handler_iterator_op_ne(RIT a, RIT b) { return a.i != b.i; }
-static inline void QList_QSharedPointer_Handler_iterator_op_inc(IT *a) { a->i++; }
-static inline void std_reverse_iterator_QList_QSharedPointer_Handler_iterator_op_inc(RIT *a) { a->i--; }
+static inline IT *QList_QSharedPointer_Handler_iterator_op_inc(IT *a) { a->i++; return a; }
+static inline RIT *std_reverse_iterator_QList_QSharedPointer_Handler_iterator_op_inc(RIT *a) { a->i--; return a; }
 
 
 /* ---- further Qt/std API of the same containers, so that plausible edits of the code stay decidable ---- */
@@ -113,7 +113,8 @@ static inline BOOL op_eq__std_reverse_iterator_QList_QSharedPointer_Handler_iter
 static inline BOOL op_ne__std_reverse_iterator_QList_QSharedPointer_Handler_iterator_std_reverse_iterator_QList_QSharedPointer_Handler_iterator(RIT a, RIT b) { return a.i != b.i; }
 static inline BOOL QList_QSharedPointer_Handler_const_iterator_valid_range(IT a, IT b) { return QList_QSharedPointer_Handler_iterator_valid_range(a, b); }
 static inline BOOL QList_QSharedPointer_Handler_const_iterator_op_ne(IT a, IT b) { return a.i != b.i; }
-static inline void QList_QSharedPointer_Handler_const_iterator_op_inc(IT *a) { a->i++; }
+static inline IT *QList_QSharedPointer_Handler_const_iterator_op_inc(IT *a) { a->i++; return a; }
+DEFINE_ITERATOR_ARITH(QList_QSharedPointer_Handler_iterator)
 static inline long std_distance__QList_QSharedPointer_Handler_const_iterator_QList_QSharedPointer_Handler_const_iterator(IT a, IT b)
 { __CPROVER_assert(a.l == b.l, "std::distance: iterators into the same list"); return (long)b.i - (long)a.i; }
 static inline long std_distance__QList_QSharedPointer_Handler_iterator_QList_QSharedPointer_Handler_iterator(IT a, IT b)
@@ -133,6 +134,19 @@ static inline QSharedPointer_Handler std_reverse_iterator_QList_QSharedPointer_H
 { __CPROVER_assert(0 < it.i && it.i <= SIZE(it.l), "reverse iterator dereferenced inside [rbegin,rend)");
   QSharedPointer_Handler h; h.p = &g_elem_obj; h.ty = CLASS_AT(it.l, it.i - 1); g_at_type = h.ty; return h; }
 static inline Handler *QSharedPointer_Handler_op_arrow(QSharedPointer_Handler h) { return h.p; }
+/* *it on a non-const iterator (a reference to the element): the same element through a cell */
+static inline QSharedPointer_Handler *QList_QSharedPointer_Handler_iterator_op_deref(IT it);
+static inline QSharedPointer_Handler QList_QSharedPointer_Handler_const_iterator_op_deref(IT it) { return QList_QSharedPointer_Handler_iterator_op_deref_value(it); }
+static inline IT *QList_QSharedPointer_Handler_iterator_op_inc_ref(IT *a) { a->i++; return a; }
+/* erase(it): removes the element it designates, returns the iterator to the element after it (same index); like remove(): removing an
+ * element never unsorts the rest nor reorders it */
+static inline IT QList_QSharedPointer_Handler_erase__QList_QSharedPointer_Handler_iterator(QList_QSharedPointer_Handler *l, IT it)
+{ __CPROVER_assert(it.l == l && 0 <= it.i && it.i < SIZE(l), "QList::erase(it): it designates an element of this list");
+  int t = CLASS_AT(l, it.i); l->c[t]--; return it; }
+static inline IT QList_QSharedPointer_Handler_erase__QList_QSharedPointer_Handler_const_iterator(QList_QSharedPointer_Handler *l, IT it)
+{ return QList_QSharedPointer_Handler_erase__QList_QSharedPointer_Handler_iterator(l, it); }
+static inline void QList_QSharedPointer_Handler_removeAt__int(QList_QSharedPointer_Handler *l, int i)
+{ __CPROVER_assert(0 <= i && i < SIZE(l), "QList::removeAt(i): 0 <= i < size()"); int t = CLASS_AT(l, i); l->c[t]--; }
 /* virtual Handler::type() of a list element */
 static inline Handler_HandlerType Handler_type(Handler *self)
 { __CPROVER_assert(self == &g_elem_obj, "type() is called on the element just fetched"); return (Handler_HandlerType)g_at_type; }
@@ -177,6 +191,9 @@ QSharedPointer_Handler g_next_cell;
 static inline QSharedPointer_Handler *QMutableListIterator_QSharedPointer_Handler_next(MIT *m)
 { __CPROVER_assert(0 <= m->i && m->i < SIZE(m->l), "QMutableListIterator::next() called with hasNext()");
   g_next_cell.p = &g_elem_obj; g_next_cell.ty = CLASS_AT(m->l, m->i); g_at_type = g_next_cell.ty; m->i++; m->can_remove = 1; return &g_next_cell; }
+/* *it on a non-const iterator (a reference to the element): the same element through the ghost cell that next() uses (listed in the
+ * frame of every function that walks the list) */
+static inline QSharedPointer_Handler *QList_QSharedPointer_Handler_iterator_op_deref(IT it) { g_next_cell = QList_QSharedPointer_Handler_iterator_op_deref_value(it); return &g_next_cell; }
 /* remove(): removes the element returned last; removing an element never unsorts the rest nor reorders it */
 static inline void QMutableListIterator_QSharedPointer_Handler_remove(MIT *m)
 { __CPROVER_assert(m->can_remove && m->i >= 1, "QMutableListIterator::remove() after next()");
@@ -252,7 +269,7 @@ FWD_FIND(find_if_lambda_SortedPipeline_insertBetweenNearRight_1, rightType, g_w2
 void NAME(SortedPipeline *self, PTRT h) \
 __CPROVER_requires(__CPROVER_is_fresh(self, sizeof(*self)) && INV17(L(self)) && L(self)->c[T] < LIM) \
 __CPROVER_requires(WITNESSES)                                  /* ghost only: instantiation of the witnesses */ \
-__CPROVER_assigns(L(self)->c[T], g_inserts, g_insert_class, g_insert_pos, g_at_type) \
+__CPROVER_assigns(L(self)->c[T], g_inserts, g_insert_class, g_insert_pos, g_at_type, g_next_cell) \
 /* a null handler is ignored */ \
 __CPROVER_ensures(h.p == NULL ==> (L(self)->c[T] == __CPROVER_old(L(self)->c[T]) && g_inserts == __CPROVER_old(g_inserts))) \
 /* otherwise exactly one handler of class T is added, at the END of the run of class T (sorted + stable: obligations of the insert model) */ \
